@@ -746,6 +746,22 @@ def _call_impl(c: ast.Call, ev, t: str):
             raise ValueError("repeat_interleave repeats")
         out = [v_ for v_, k_ in zip(_as_exact(x).tolist(), reps) for _ in range(k_)]
         return frac_array(out) if out else np.empty((0,), dtype=object)
+    if m in ("std", "var") and c.args:
+        # (population / sample deviation along one axis; roots stay exact - see exact_sqrt)
+        dim = _axis(_int(ev(c.args[0])), x.ndim)
+        unb = ev(c.args[1]) if len(c.args) > 1 else next((ev(k_.value) for k_ in c.keywords if k_.arg == "unbiased"), True)
+        mv = np.moveaxis(_as_exact(x), dim, -1)
+        out = np.empty(mv.shape[:-1], dtype=object)
+        for ix in np.ndindex(mv.shape[:-1]):
+            row = list(mv[ix])
+            n_ = len(row)
+            if n_ - (1 if unb else 0) <= 0:
+                out[ix] = float("nan")
+                continue
+            mu = sum(row, Fraction(0)) / n_
+            v_ = sum(((r_ - mu) ** 2 for r_ in row), Fraction(0)) / (n_ - (1 if unb else 0))
+            out[ix] = exact_sqrt(v_) if m == "std" else v_
+        return out
     if m == "permute" and c.args:
         dims = [ev(a_) for a_ in c.args]
         if len(dims) == 1 and isinstance(dims[0], tuple):
@@ -842,7 +858,7 @@ def _call_impl(c: ast.Call, ev, t: str):
         return x.reshape(x.shape[:s] + (mid,) + x.shape[en + 1:])  # (the extent written out: an empty tensor flattens like any other)
     if m in ("view", "reshape"):
         shape = [ev(a) for a in c.args]
-        if len(shape) == 1 and isinstance(shape[0], tuple):
+        if len(shape) == 1 and isinstance(shape[0], (tuple, list)):
             shape = list(shape[0])
         return x.reshape([_int(s) for s in shape])
     if m == "view_as" and len(c.args) == 1:
